@@ -143,5 +143,7 @@ class OperatorToken(Operator):
     def process(self, match, context=None):
         attr = super(OperatorToken, self).process(match, context=context)
         if 'sum_minus' in attr:
+            if not attr['sum_minus'].strip():  # White space only (e.g., tab).
+                return {}
             attr['name'] = '-+'[attr['sum_minus'].count('-') % 2 == 0]
         return attr
